@@ -423,6 +423,7 @@ class PoolWorld:
 
     # -- stepping with invariants ---------------------------------------------------------
     def _after_iteration(self):
+        self.table.progress()
         live = len(self.table.live_not_doomed())
         if live > self.max_live:
             self.max_live = live
@@ -638,6 +639,8 @@ class PoolWorld:
             if ds == "at":
                 self.probe("exit_at_deadline")
         p.do_exit(code)
+        if p.blocked_on_pipe:
+            self.probe("process_blocked_on_full_pipe")
         return True
 
     def proc_drain(self, k):
@@ -795,10 +798,10 @@ class PoolWorld:
                 base = f"{self.working_dir}/.gwf/logs/{f.name}"
                 got_o = self.memfs.files.get(base + ".stdout")
                 got_e = self.memfs.files.get(base + ".stderr")
-                if got_o != p.stdout or got_e != p.stderr:
+                if got_o != p.sent_out or got_e != p.sent_err:
                     self.flag("C13", "log_mismatch",
-                              f"task {f.k}: stdout {None if got_o is None else len(got_o)}/{len(p.stdout)} "
-                              f"stderr {None if got_e is None else len(got_e)}/{len(p.stderr)} bytes")
+                              f"task {f.k}: stdout {None if got_o is None else len(got_o)}/{len(p.sent_out)} "
+                              f"stderr {None if got_e is None else len(got_e)}/{len(p.sent_err)} bytes")
                 else:
                     self.probe("logs_checked")
             for p in f.procs:
